@@ -6,10 +6,14 @@ real MIR of parse_blocks, detect_validators, validators::run (sync path), the sy
 process_violations is executed under every iteration order (all permutations for <=3 entries,
 applied to every map; walk order and validator spawn order permuted too) with the violations'
 severities symbolic, and the results are compared as sets/multisets across orders.
-Outside: OS thread scheduling, core count, cwd, the order ignore::Walk really produces, the async
-validators.
+An async scenario (four check-lua blocks, one check-ai block, one sync validator; healthy and
+with one failing script) is run on the coroutine MIR under every completion order of the tokio
+tasks, every map order and a symbolic core count: one verdict.
+Outside: OS thread scheduling inside tasks, cwd, the order ignore::Walk really produces.
 """
 import itertools
+import os
+import shutil
 import json
 import random
 import sys
@@ -168,6 +172,123 @@ def run_scope_orders(task):
     return out
 
 
+def run_async_orders(task):
+    """Scripted and AI blocks next to a sync validator: the verdict must not depend on the order in
+    which the tokio tasks complete, on the number of cores, or on map iteration order."""
+    variant = task
+    from . import c18, c19
+    prog = driver.load_program()
+    stats = PathStats()
+    f_run = prog.find_fn('run')
+    f_env = prog.find_method('OpenAiClient', 'new_from_env')
+    f_with = prog.find_method('CheckAiValidator', 'with_client')
+    out = dict(violations=[], samples=[], obligations=0, cover={}, panic_paths=0, results=[])
+    holder = {}
+
+    def run_path(I):
+        perm = sym_perm(I, 'mo', 3)
+        holder.update(perm=perm, I=I)
+        I.map_order = lambda n: [x for x in perm if x < n] if len(perm) >= n else list(range(n))
+        order_log = []
+        holder['order_log'] = order_log
+
+        def task_order(n, step):
+            k = I.concretize(I.fresh_int('ord%d_%d' % (step, n), 0, n - 1), 'task order') if n > 1 else 0
+            order_log.append(k)
+            return k
+        I.task_order = task_order
+        src = tuple(b'#S\nb\na\n#E\n')
+
+        def blk(name, line, **attrs):
+            d = {'name': name.encode()}
+            d.update({k.replace('_', '-'): v for k, v in attrs.items()})
+            return mk_bwc(prog, mk_block(prog, I, d, (line, 3), (line, 20), (3, 6), (line, 30), (line + 3, 1)))
+        scripts = {65: ('string', tuple(b'm1')), 66: ('nil',), 67: ('string', tuple(b'm2')), 68: ('string', tuple(b'm3'))}
+        if variant == 'failing':
+            scripts[66] = ('runtime_error',)
+        replies = {72: ('text', tuple(b'no')), 'default': ('text', tuple(b'OK'))}
+        f0 = [blk('l1', 1, check_lua=b'A.lua'), blk('l2', 5, check_lua=b'B.lua'), blk('s1', 9, keep_sorted=b''), blk('a1', 13, check_ai=b'Hcond')]
+        f1 = [blk('l3', 1, check_lua=b'C.lua'), blk('l4', 5, check_lua=b'D.lua', severity=b'warning')]
+        ctx = mk_context(prog, I, [(b'f0.py', src, f0), (b'd/f1.py', src, f1)])
+        c18.install_lua(I, prog, scripts, [])
+        c19.install_openai(I, prog, {b'BLOCKWATCH_AI_API_KEY': tuple(b'k'), b'BLOCKWATCH_AI_MODEL': None, b'BLOCKWATCH_AI_API_URL': None}, replies, [])
+        client = I.call_fn(f_env, [])
+        ai = Ref(Cell(I.call_fn(f_with, [client])), ())
+        lua = Ref(Cell(Struct('CheckLuaValidator', ())), ())
+        ks = Ref(Cell(Struct('KeepSortedValidator', ())), ())
+        av = [lua, ai] if perm[0] % 2 == 0 else [ai, lua]
+        res = I.call_fn(f_run, [ctx, VecVal([ks]), VecVal(av)])
+        st, dec = decode_violations(prog, res)
+        if st == 'err':
+            return dict(err=True)
+        merged = {}
+        for k, vs in dec.items():
+            merged[k.decode()] = sorted((bytes(v['code']).decode(), v['start'][0], v['severity'].vname) for v in vs)
+        return dict(err=False, merged=merged)
+
+    for I, pk, val in explore(prog, models.M, run_path, stats=stats, max_paths=20000):
+        if pk == 'panic':
+            out['violations'].append(dict(role='panic', summary='panic: %s' % val.msg[:120], perm=list(holder['perm'])))
+            continue
+        cores = None
+        if getattr(I, '_cores', None) is not None:
+            cores = mval(I.ensure_model(), I._cores)
+        out['results'].append(dict(perm=list(holder['perm']), order=list(holder['order_log']), cores=cores, result=val))
+        out['cover']['async-orders'] = out['cover'].get('async-orders', 0) + 1
+    out.update(Agg(PROP, 'x').stats_from(stats))
+    out['task'] = ['async', variant]
+    return out
+
+
+def confirm_async(binary, v):
+    """The async scenario as real files: four scripted blocks, one AI block (loopback endpoint), one
+    sync block; run pinned to one core and on all cores, three times each; any difference confirms."""
+    from . import c19
+    variant = v['scenario'][1]
+    body0 = ''
+    for name, attr in (('l1', 'check-lua="A.lua"'), ('l2', 'check-lua="B.lua"'), ('s1', 'keep-sorted'), ('a1', 'check-ai="Hcond"')):
+        body0 += '# <block name="%s" %s>\nb\na\n# </block>\n' % (name, attr)
+    body1 = ''
+    for name, attr in (('l3', 'check-lua="C.lua"'), ('l4', 'check-lua="D.lua" severity="warning"')):
+        body1 += '# <block name="%s" %s>\nb\na\n# </block>\n' % (name, attr)
+    files = {'f0.py': body0.encode(), 'd/f1.py': body1.encode()}
+    for nm, ret in (('A', '"m1"'), ('B', 'nil'), ('C', '"m2"'), ('D', '"m3"')):
+        files[nm + '.lua'] = ('function validate(ctx, content)\n  return %s\nend\n' % ret).encode()
+    if variant == 'failing':
+        files['B.lua'] = b'function validate(ctx, content)\n  error("boom")\nend\n'
+    outs = {}
+    with c19.FakeEndpoint([dict(cond='Hcond', reply=('text', 'no'))], default=('text', 'OK')) as ep:
+        env = {'BLOCKWATCH_AI_API_KEY': 'k', 'BLOCKWATCH_AI_API_URL': 'http://127.0.0.1:%d/v1' % ep.port}
+        for pin in ('0', None):
+            for _ in range(3):
+                d = scratch_dir('c20a')
+                try:
+                    git_init(d)
+                    for name, content in files.items():
+                        pth = os.path.join(d, name)
+                        os.makedirs(os.path.dirname(pth), exist_ok=True)
+                        open(pth, 'wb').write(content)
+                    if pin is None:
+                        r = run_blockwatch(binary, d, ['**/*.py'], stdin=b'', env_extra=env, timeout=60)
+                    else:
+                        r = run_blockwatch('taskset', d, ['-c', pin, binary, '**/*.py'], stdin=b'', env_extra=env, timeout=60)
+                finally:
+                    shutil.rmtree(d, ignore_errors=True)
+                diags = {}
+                if r['stderr'].strip().startswith('{'):
+                    try:
+                        diags = {k: sorted(x.get('code') for x in vs) for k, vs in json.loads(r['stderr']).items()}
+                    except ValueError:
+                        pass
+                outs.setdefault(json.dumps([r['code'], diags], sort_keys=True), []).append(pin or 'all cores')
+    v['observed'] = outs
+    v['confirmed'] = len(outs) > 1
+    if v['confirmed']:
+        v['replay'] = save_replay(PROP, v['role'], files, "'**/*.py'",
+                                  'run under `taskset -c 0` and unpinned, with BLOCKWATCH_AI_API_URL pointing at an endpoint that answers "no" (tools/fake_ai_endpoint.py pattern); outputs seen: %s' % json.dumps(outs)[:400], v)
+    return v
+
+
 BOUNDS = {'quick': dict(nfiles=[2, 3], vperms=2), 'thorough': dict(nfiles=[2, 3], vperms=6)}
 
 
@@ -201,12 +322,21 @@ def main(tier):
         agg.add(r)
         if 'task' in r and rs:
             groups.setdefault('scope', []).append((r['task'], rs))
+    ares = pmap(run_async_orders, ['healthy', 'failing'])
+    for r in ares:
+        rs = r.pop('results', [])
+        agg.add(r)
+        for x in rs:
+            groups.setdefault(('async', r['task'][1]), []).append((dict(map_order=x['perm'], completion_order=x['order'], cores=x['cores']), x['result']))
     for key, items in groups.items():
         ref_task, ref = items[0]
         for task, rs in items[1:]:
             agg.obligations += 1
             if json.dumps(rs, sort_keys=True, default=str) != json.dumps(ref, sort_keys=True, default=str):
-                agg.violations.append(dict(role='verdict-depends-on-iteration-order', confirmed=None,
+                role = 'verdict-depends-on-iteration-order'
+                if isinstance(key, tuple) and key[0] == 'async':
+                    role = 'verdict-depends-on-schedule-or-cores'
+                agg.violations.append(dict(role=role, confirmed=None, scenario=list(key) if isinstance(key, tuple) else key,
                                            summary='scenario %s: order %s gives %s, order %s gives %s' % (key, ref_task, ref, task, rs)))
     # an order-dependent verdict cannot be replayed through a fixed hash seed; confirm by running the real binary
     # repeatedly on the scenario and comparing outputs
@@ -229,6 +359,10 @@ def main(tier):
         if v['role'] in ('diff-section-lost', 'diff-sections-error'):
             final.append(v)
             continue
+        if v['role'] == 'verdict-depends-on-schedule-or-cores':
+            confirm_async(binary, v)
+            final.append(v)
+            continue
         v['confirmed'] = True
         v['replay'] = save_replay(PROP, v['role'], files, "'**'", 'run repeatedly (different hash seeds) and compare; ' + v['summary'][:300], v)
         final.append(v)
@@ -247,9 +381,9 @@ def main(tier):
     return finish(
         agg, bounds,
         assumptions=['every std HashMap/HashSet is an association-list model iterated in the order the run prescribes (a hashing seed only ever changes that order)',
-                     'threads are run in spawn order; OS scheduling, core count, cwd and the real directory walk are outside', 'the async validators are outside'],
+                     'threads are run in spawn order; tokio tasks (check-lua / check-ai scenario on the coroutine MIR with the stubs of C18/C19) complete in every order, with the core count symbolic; OS scheduling inside tasks, cwd and the real directory walk are outside'],
         stubs=['OpenAiClient::new_from_env', 'stderr / to_writer_pretty / process::exit', 'FileSystem / PathChecker / grammar in the scope scenario'],
-        must_cover=['orders', 'scope-orders', 'diff-orders'],
+        must_cover=['orders', 'scope-orders', 'diff-orders', 'async-orders'],
         explanation='the same scenario is executed on the real MIR under every iteration order; instantiated validators, merged violations, exit status, examined files and result keys must be identical')
 
 
